@@ -250,6 +250,14 @@ def subst(e: ast.expr, store: Dict[str, ast.expr]) -> ast.expr:
 class _Simplify(ast.NodeTransformer):
     """Projections of literal tuples: (a, b)[1] -> b."""
 
+    def visit_BinOp(self, n: ast.BinOp):
+        """integer arithmetic on literals: (a, b)[1 - 0] -> (a, b)[1]"""
+        self.generic_visit(n)
+        if isinstance(n.left, ast.Constant) and isinstance(n.right, ast.Constant) and type(n.left.value) is int and type(n.right.value) is int and isinstance(n.op, (ast.Add, ast.Sub, ast.Mult)):
+            a, b = n.left.value, n.right.value
+            return ast.Constant(value=a + b if isinstance(n.op, ast.Add) else (a - b if isinstance(n.op, ast.Sub) else a * b))
+        return n
+
     def visit_Subscript(self, n: ast.Subscript):
         self.generic_visit(n)
         if isinstance(n.value, (ast.Tuple, ast.List)) and isinstance(n.slice, ast.Constant) and isinstance(n.slice.value, int) and not any(isinstance(x, ast.Starred) for x in n.value.elts):
